@@ -7,7 +7,7 @@
    is an IndexError).  All statements are over Z: no dtype wrap-around is modelled (the only
    subtraction of the code, np.diff of the sorted ids, is of sorted neighbours). *)
 From Coq Require Import ZArith List Lia Bool Arith Permutation Sorted.
-From PV Require Import Base.NpSort C07.Model C07.Spec C07.Proofs C07.Proofs2 C07.Proofs3.
+From PV Require Import Base.NpSort C07.Model C07.Spec C07.Proofs C07.Proofs2 C07.Proofs3 C07.Proofs4.
 Import ListNotations.
 Open Scope Z_scope.
 
@@ -241,4 +241,123 @@ Example C07_ex_checkers_groups :
   partition_b [7; 0; 3; 0] [0; 1; 2; 3] [mkg 0 [1]; mkg 3 [2]; mkg 7 [0]] = false /\
   union_b [7; 0; 3; 0] [9; 0; 7; 0] [0; 1; 3] = true /\ union_b [7; 0; 3; 0] [9; 0; 7; 0] [1; 3] = false /\
   cluster_spikes_b [7; 0; 3; 0] 0 [1; 3] = true.
+Proof. vm_compute. repeat split; reflexivity. Qed.
+
+(* ======================= stage 3 ======================= *)
+
+(* "for every integer dtype (signed or unsigned)".  The theorems above are over Z.  The only arithmetic
+   the code performs on ids is (1) the first difference of the SORTED ids in _spikes_per_cluster, taken
+   in the dtype of spike_clusters, and (2) the table size max + 2 of _index_of, taken in int32.
+   spikes_per_cluster_dt / index_of_dt are the same lines with that arithmetic reduced modulo the dtype
+   (dt = its value range [dt_lo, dt_hi]; wrap reduces into it).  For a vector whose ids all lie in the
+   dtype's range:
+   - UNSIGNED dtype (dt_lo = 0), whatever the ids (0 and the top of the range included): no wrap;
+   - SIGNED dtype and non-negative ids: no wrap;
+   - in general: no wrap as soon as no two ids differ by more than dt_hi;
+   and then the dtype-aware function IS the function over Z, so every theorem above holds for it
+   verbatim.  (For a signed dtype and ids more than dt_hi apart the difference does wrap and two
+   clusters are merged: C07_ex_signed_wrap below; NumPy agrees, corpus cases of kind spc_dt.)
+   Likewise the table of _index_of has max + 2 cells whenever max + 2 fits int32; when it does not
+   (max = 2^31 - 2 or 2^31 - 1) the wrapped size is negative and the call is an error (ValueError). *)
+Theorem C07_no_wrap : forall (dt : dtype) (sc : list Z) (spike_ids : option (list Z)),
+  dt_ok dt -> Forall (in_dt dt) sc ->
+  (dt_lo dt = 0 \/ Forall (fun c => 0 <= c) sc \/ Span_Fits dt sc) ->
+  spikes_per_cluster_dt dt sc spike_ids = spikes_per_cluster sc spike_ids.
+Proof. exact spc_no_wrap_thm. Qed.
+Print Assumptions C07_no_wrap.
+
+(* hence the grouping / partition statement for the function as it runs on an array of ANY integer
+   dtype: unsigned with arbitrary ids, signed with non-negative ids (or ids at most dt_hi apart) *)
+Theorem C07_groups_dtype : forall (dt : dtype) (sc : list Z) (spike_ids : option (list Z)),
+  dt_ok dt -> Forall (in_dt dt) sc ->
+  (dt_lo dt = 0 \/ Forall (fun c => 0 <= c) sc \/ Span_Fits dt sc) ->
+  (length sc <= length (eff_ids sc spike_ids))%nat ->
+  exists d, spikes_per_cluster_dt dt sc spike_ids = Some d /\
+            Groups_Spec sc (eff_ids sc spike_ids) d /\ Partition_Spec sc (eff_ids sc spike_ids) d.
+Proof.
+  intros dt sc o Hok Hr Hc Hl. rewrite (spc_no_wrap_thm dt sc o Hok Hr Hc). now apply spc_groups.
+Qed.
+Print Assumptions C07_groups_dtype.
+
+Theorem C07_no_wrap_index_of : forall (dt : dtype) (arr lookup : list Z),
+  (dt_ok dt -> dt_lo dt <= lk_max lookup + 1 -> lk_max lookup + 2 <= dt_hi dt ->
+     index_of_dt dt arr lookup = index_of arr lookup) /\
+  (dt_lo dt = - dt_hi dt - 1 -> 1 <= dt_hi dt -> lookup <> [] ->
+     0 <= lk_max lookup <= dt_hi dt -> dt_hi dt < lk_max lookup + 2 -> index_of_dt dt arr lookup = None).
+Proof. intros dt arr lookup. split; [apply index_of_no_wrap|apply index_of_overflow]. Qed.
+Print Assumptions C07_no_wrap_index_of.
+
+(* the third alternative of C07_no_wrap cannot be dropped: in a signed dtype (range [-hi-1, hi]) two ids
+   more than hi apart make the first difference wrap to a negative number; the boundary is lost and
+   both spikes are filed under the smaller id, whereas over Z they are two clusters *)
+Theorem C07_signed_wrap : forall (dt : dtype) (a b : Z),
+  dt_lo dt = - dt_hi dt - 1 -> 1 <= dt_hi dt -> dt_lo dt <= a -> b <= dt_hi dt -> dt_hi dt < b - a ->
+  spikes_per_cluster_dt dt [a; b] None = Some [mkg a [0; 1]] /\
+  spikes_per_cluster [a; b] None = Some [mkg a [0]; mkg b [1]].
+Proof. exact spc_signed_wrap_pair. Qed.
+Print Assumptions C07_signed_wrap.
+
+(* get_template_counts when spike_templates is SHORTER than spike_clusters (the case excluded by the
+   hypothesis of C07_template_counts): the call behaves as on the truncated spike_clusters -- to which
+   C07_template_counts applies -- exactly when no spike of the cluster lies at or beyond
+   len(spike_templates); otherwise it is an error (IndexError). *)
+Theorem C07_template_counts_short : forall (sc st : list Z) (nt c : Z),
+  ((forall p, (length st <= p)%nat -> nth_error sc p <> Some c) ->
+      get_template_counts sc st nt c = get_template_counts (firstn (length st) sc) st nt c) /\
+  ((exists p, (length st <= p)%nat /\ nth_error sc p = Some c) -> get_template_counts sc st nt c = None).
+Proof. exact template_counts_short. Qed.
+Print Assumptions C07_template_counts_short.
+
+(* completeness of the boolean comparator clauses: whenever the declarative statement holds the
+   checker answers true, so (with C07_checker_sound / C07_checker_sound_groups) each clause 21-29 is
+   EQUIVALENT to its statement and can raise no false alarm *)
+Theorem C07_checker_complete : forall (x arr lookup sc st r : list Z) (d : list group) (nt c : Z) (g : list gm),
+  (Unique_Spec x r -> unique_b x r = true) /\
+  (IndexOf_Spec arr lookup r -> indexof_b arr lookup r = true) /\
+  (Flatten_Spec d r -> flatten_b d r = true) /\
+  (GMean_Spec arr sc g -> gmean_b arr sc g = true) /\
+  (Counts_Spec sc st nt c r -> counts_b sc st nt c r = true).
+Proof.
+  intros. split; [apply unique_b_complete|]. split; [apply indexof_b_complete|]. split; [apply flatten_b_complete|].
+  split; [apply gmean_b_complete|apply counts_b_complete].
+Qed.
+Print Assumptions C07_checker_complete.
+
+Theorem C07_checker_complete_groups : forall (sc ids cl r v : list Z) (d : list group) (c : Z),
+  (Groups_Spec sc ids d -> groups_b sc ids d = true) /\
+  (Partition_Spec sc ids d -> partition_b sc ids d = true) /\
+  (Groups_Spec sc (arange (length sc)) d -> Union_Spec cl d r -> union_b sc cl r = true) /\
+  (r = members v (arange (length v)) c -> cluster_spikes_b v c r = true).
+Proof.
+  intros. split; [apply groups_b_complete|]. split; [apply partition_b_complete|].
+  split; [apply union_b_complete|apply cluster_spikes_b_complete].
+Qed.
+Print Assumptions C07_checker_complete_groups.
+
+(* ---- non-vacuity of the stage-3 theorems ---- *)
+(* unsigned, ids 0 and the top of the range: the difference 65535 fits, nothing wraps *)
+Example C07_ex_no_wrap_unsigned :
+  spikes_per_cluster_dt uint16 [65535; 0; 1; 65535] None = Some [mkg 0 [1]; mkg 1 [2]; mkg 65535 [0; 3]] /\
+  spikes_per_cluster [65535; 0; 1; 65535] None = Some [mkg 0 [1]; mkg 1 [2]; mkg 65535 [0; 3]] /\
+  first_diff_dt uint16 [0; 1; 65535; 65535] = [1; 1; 65534; 0].
+Proof. vm_compute. repeat split; reflexivity. Qed.
+(* signed, ids more than dt_hi apart (outside the hypothesis of C07_no_wrap): the difference wraps to a
+   negative number, the boundary is lost, two clusters are merged under the smaller key *)
+Example C07_ex_signed_wrap :
+  spikes_per_cluster_dt int32 [-2147483648; 2147483647] None = Some [mkg (-2147483648) [0; 1]] /\
+  spikes_per_cluster [-2147483648; 2147483647] None = Some [mkg (-2147483648) [0]; mkg 2147483647 [1]] /\
+  spikes_per_cluster_dt int32 [5; -2147483648; 2147483647; 5; -2147483648] None =
+    Some [mkg (-2147483648) [1; 4; 0; 3]; mkg 2147483647 [2]] /\
+  spikes_per_cluster_dt int32 [-2147483648; -1] None = Some [mkg (-2147483648) [0]; mkg (-1) [1]] /\
+  span_fits_b int32 [-2147483648; -1] = true /\ span_fits_b int32 [-2147483648; 0] = false.
+Proof. vm_compute. repeat split; reflexivity. Qed.
+Example C07_ex_index_of_dt :
+  index_of_dt int32 [7; 0; 3; -1; 2] [7; 3; 0; 2] = Some [0; 2; 1; -1; 3] /\
+  index_of_dt int32 [0] [2147483646] = None /\ index_of_dt int32 [0] [2147483647] = None /\
+  index_of_dt int8 [125; -1] [125] = Some [0; -1] /\ index_of_dt int8 [126] [126] = None.
+Proof. vm_compute. repeat split; reflexivity. Qed.
+Example C07_ex_template_counts_short :
+  get_template_counts [0; 0; 1] [2; 2] 3 0 = Some [0; 0; 2] /\
+  get_template_counts [0; 0] [2; 2] 3 0 = Some [0; 0; 2] /\
+  get_template_counts [0; 0; 1] [2; 2] 3 1 = None.
 Proof. vm_compute. repeat split; reflexivity. Qed.
